@@ -18,5 +18,6 @@ CONSTANTS
   OblHonest = TRUE
   AllowXA = FALSE
   OblXATruthful = TRUE
+  OblXAPhaseOrder = TRUE
 INVARIANTS TypeOK ATAtomicRollback TCCAtomic NoDirtyGlobalWrite RollbackPossible
 CHECK_DEADLOCK FALSE
